@@ -4,7 +4,7 @@ import json, random
 import numpy as np
 from ..core import CheckSpec, Outcome, Lean
 
-PIPE_OPS = ["modify", "connect", "replace", "add", "alias", "clear", "build", "clone", "train_clone", "run"]
+PIPE_OPS = ["modify", "connect", "replace", "add", "alias", "clear", "build", "clone", "train_clone", "run", "rebuild_train"]
 DATA_OPS = ["builder_from", "add_entities", "add_interactions", "add_attr", "add_class", "filter", "build", "reuse_builder", "split", "read"]
 
 def gen(rng: random.Random, tier: str):
@@ -13,6 +13,7 @@ def gen(rng: random.Random, tier: str):
         world = "pipeline" if k % 2 == 0 else "dataset"
         ops = [rng.choice(PIPE_OPS if world == "pipeline" else DATA_OPS) for _ in range(rng.randint(2, 8))]
         ops[0] = "modify" if world == "pipeline" else "builder_from"
+        if world == "pipeline" and k % 8 == 2 and "rebuild_train" not in ops: ops.insert(rng.randint(1, len(ops)), "rebuild_train")          # directed: one builder, two builds
         if world == "pipeline" and "run" not in ops: ops.insert(rng.randint(1, len(ops)), "run")          # every pipeline history hands a candidate list to the components
         if world == "dataset" and "read" not in ops and rng.random() < 0.5: ops.insert(rng.randint(1, len(ops)), "read")
         yield {"world": world, "ops": ops, "seed": rng.randrange(10**6), "scorer": rng.choice(["bias", "pop", "iknn"]), "predicts": rng.random() < 0.4,
@@ -135,6 +136,19 @@ def run(case: dict, lean: Lean) -> Outcome:
                 elif op == "build":
                     pn = builders[-1].build(); pn.train(ds); built[f"pipe{len(built)}"] = (pn, fpf(pn), fpf); cur = pn
                     objs.append(pn); cur_i = len(objs) - 1; mops.append({"op": "build", "b": bidx[-1]})
+                elif op == "rebuild_train":
+                    # the same builder built twice with the scorer given as class + configuration: each pipeline gets its own scorer, so
+                    # training the later pipeline's scorer on other data leaves the earlier pipeline's results as they were.  (Only that
+                    # scorer is retrained: the other components of a modify() builder are the original pipeline's own instances, by design.)
+                    from lenskit.basic.bias import BiasConfig
+                    b = builders[-1]; b.replace_component("scorer", BiasScorer, BiasConfig(damping=rnd.randint(0, 9)))
+                    pa_ = b.build(); pa_.train(ds); built[f"pipe{len(built)}"] = (pa_, fpf(pa_), fpf)
+                    objs.append(pa_); mops.append({"op": "build", "b": bidx[-1]})
+                    pb_ = b.build()
+                    objs.append(pb_); mops.append({"op": "build", "b": bidx[-1]})
+                    if pa_.node("scorer").component is pb_.node("scorer").component:
+                        failed.append("two pipelines built from the same builder share the instance of a component given as class + configuration")
+                    pb_.node("scorer").component.train(_dataset(rnd))
                 elif op == "clone": c = cur.clone(); c.train(ds)
                 elif op == "train_clone": c = cur.clone(); c.train(_dataset(rnd))
                 elif op == "run":
